@@ -209,7 +209,7 @@ lazy_static! {
 [\ ]
 \(                 # open ( which the previous file name may not contain in case a name does (which is more likely)
 (
-    [^\ ].*[^\ ]   # author name
+    [^\ ](?:.*?[^\ ])??   # author name (shortest match: the code may contain a timestamp too)
 )
 [\ ]+
 (                  # timestamp
